@@ -35,7 +35,7 @@ TRUSTED_BASE = [
 MANIFEST = {
     "technique": "Lean 4 proof (simulation between the lexer runs under two delimiter sets; invariant of an LRU-bounded memo over all call histories; refinement of the cached process to a cache-free one) + translator-generated obligations on cache keys and re.escape flow + differential correspondence and rendering equality under random delimiter sets and interleaved environments",
     "text": "tokenize_delim_independent: for every piece list and any two delimiter sets the token streams agree up to positions (the parser's input is delimiter-free). memo_transparent / memo_bounded: an lru_cache of any size returns f(k) on every call of every history and never exceeds maxsize, provided equal keys give equal results; memo_stale_counterexample shows the proviso is needed. env_isolation: the process with the 128-entry lexer and parser caches computes every parse from the asked environment's own delimiters and current tags/filters/tolerance, for every interleaving of creations, mutations and parses. lexer_cache_key_complete, all_delims_escaped, lex_patterns_pinned, parser_cache_key_identity, implicit_env_key_complete: the provisos hold of this tree (re-decided from the source on every run).",
-    "note": "Trusted: Lean kernel, the hand models, the AST emitter, the harness; Python `re` matching of the assembled source is measured, not proved. Fixed in the tree: a tag_end_string that starts with a word character (or '#') directly after a tag name. Known findings: the liquid-tag comment marker derived from comment_start_string ('{if' -> 'if'; 'a#' never recognised).",
+    "note": "Trusted: Lean kernel, the hand models, the AST emitter, the harness; Python `re` matching of the assembled source is measured, not proved. Fixed in the tree: a tag_end_string that starts with a word character (or '#') directly after a tag name. Also fixed: a liquid-tag comment marker that starts with a word character ('a#'). Known finding: comment_start_string '{if' yields the marker 'if'.",
 }
 ASSUMPTIONS = [
     "non-collision = no delimiter string occurs in the assembled source except where the rewriting wrote it (raw/doc bodies may contain anything but their own end tag), no delimiter contains another, no white space in delimiters",
